@@ -7,6 +7,7 @@
 #include <dirent.h>
 #include <execinfo.h>
 #include <dlfcn.h>
+#include <poll.h>
 #include <errno.h>
 #include <fcntl.h>
 #include <pthread.h>
@@ -699,6 +700,18 @@ ssize_t write(int fd, const void* buf, size_t n) {
         if (wf.file == bn && wf.remaining != 0) {
           if (wf.remaining > 0) {
             wf.remaining--;
+          }
+          if (wf.block) {
+            // kernel behaviour of a memory.high write with a target below usage: the limit is set, then the writer sits in
+            // the reclaim loop until a signal is pending, and the write still returns n
+            e["blocked"] = true;
+            ev(e);
+            ssize_t r = real(fd, buf, n);
+            sigset_t none;
+            sigemptyset(&none);
+            struct timespec guard = {5, 0};
+            ppoll(nullptr, 0, &guard, &none);
+            return r;
           }
           if (wf.shortw && n > 1) {
             e["fault"] = "short";
